@@ -207,7 +207,7 @@ fn main() {
         }
         let quick = run.quick();
         let seed = run.seed();
-        let nb = run.tier(60_000u64, 1_500_000u64);
+        let nb = run.tier(60_000u64, 30_000_000u64);
         run.generate("built-in-fonts", nb, false, 0.5, |ctx, idx, rng| {
             let fi = if quick {
                 match idx % 50 {
@@ -230,7 +230,7 @@ fn main() {
             }
             check(ctx, &t, FONTS[fi].2, rng);
         });
-        let nc = run.tier(30_000u64, 800_000u64);
+        let nc = run.tier(30_000u64, 15_000_000u64);
         run.generate("custom-fonts", nc, false, 0.5, |ctx, idx, rng| {
             let f = zoo::gen_custom_font(rng);
             let s = zoo::gen_custom_string(rng, &f);
